@@ -317,6 +317,7 @@ func checkC14(r *core.Result) {
 		}
 	}
 	r.Floor("scratch-slice stores", nScratch, 8)
+	checkLazyInheritance(r, prog, lp)
 	// R7: who may release a result. close() is called only by Close() and by itself (through closers);
 	// in-package, Close() is called only on the error path of decodeWithPool (a result that was never
 	// handed out). Any other release of a result that may also sit in a parent's closers returns one
